@@ -49,7 +49,7 @@ FAST = ["-Z", "unstable-options", "--no-assertion-reach-checks", "--no-memory-sa
 
 
 def me_props(_tc):
-    return (["C10", "C04", "C01", "C02", "C20"] + {19: ["C07"], 28: ["C09"]}.get(_tc, []) + (["C08"] if 1 <= _tc <= 4 else [])
+    return (["C10", "C04"] + (["C02"] if _tc == 31 else []) + {19: ["C07"], 28: ["C09"]}.get(_tc, []) + (["C08"] if 1 <= _tc <= 4 else [])
             + (["C06"] if (9 <= _tc <= 18 or 20 <= _tc <= 22) else []))
 
 
@@ -72,7 +72,7 @@ for _tc in range(32):
 for _g in range(16):
     _lo, _hi = _g * 16, _g * 16 + 15
     add("bds_%02x_%02x" % (_lo, _hi), "adsb_deku", F + "obl_bds", args="0x%02x, 0x%02x" % (_lo, _hi),
-        props=["C10", "C04", "C01", "C20"] + (["C08"] if _lo == 0x20 else []), unwind=10,
+        props=["C10", "C04"] + (["C08"] if _lo == 0x20 else []), unwind=10,
         tier="quick" if _g in (0, 1, 2, 3, 15) else "thorough",
         domain="MB first byte 0x%02x..=0x%02x x all 2^48 remaining MB bits x 2^24 trailer" % (_lo, _hi),
         functions=["bds::BDS::from_reader_with_ctx (real derive expansion)"], timeout=1500, kani_flags=FAST,
@@ -187,9 +187,11 @@ for _d in (0, 1):
     _n = "df18" if _d else "df17"
     _b = "true" if _d else "false"
     for _ts in ("false", "true"):
-        add("trk_pos_%s_track%s" % (_n, _ts[0]), "rsadsb_common", T + "obl_action_position", args=_b + ", " + _ts + ", 4", props=["C12", "C13", "C14", "C01"], stubs=["fmt", ENTRY, GP, HV], unwind=6,
-            features=("alloc",), domain="fully symbolic record (track %s) x symbolic position report x receiver x range (non-NaN) x arbitrary pairing / distance results" % ("empty" if _ts == "true" else "absent"),
-            functions=TRK_FN, timeout=1200, tier="quick" if (_d == 0 or _ts == "false") else "thorough")
+        for _lv, _ln in ((3, "pub"), (7, "inv"), (15, "trk")):
+            add("trk_pos_%s_track%s_%s" % (_n, _ts[0], _ln), "rsadsb_common", T + "obl_action_position", args=_b + ", " + _ts + ", %d" % _lv,
+                props=["C12", "C13", "C14", "C01"], stubs=["fmt", ENTRY, GP, HV], unwind=6,
+                features=("alloc",), domain="fully symbolic record (track %s) x symbolic position report x receiver x range (non-NaN) x arbitrary pairing / distance results; clause groups mask %d" % ("empty" if _ts == "true" else "absent", _lv),
+                functions=TRK_FN, timeout=900, tier="quick" if ((_d == 0 and _ts == "false") or (_d == 1 and _ts == "false" and _ln == "pub")) else "thorough")
     add("trk_ident_" + _n, "rsadsb_common", T + "obl_action_ident", args=_b, props=["C12", "C14", "C01"], stubs=["fmt", ENTRY], unwind=6,
         features=("alloc",), domain="fully symbolic record x identification report", functions=TRK_FN, timeout=900)
     add("trk_vel_" + _n, "rsadsb_common", T + "obl_action_velocity", args=_b, props=["C12", "C14", "C01"], stubs=["fmt", ENTRY, CALC], unwind=6,
@@ -214,6 +216,22 @@ for _i, (_now, _a, _b2, _c, _thr) in enumerate(_PR):
 
 add("frame_any_native", "adsb_deku", F + "obl_frame_any", props=["native-oracle"], stubs=[], tier="native",
     domain="native oracle: any buffer of 0..=32 bytes", functions=["Frame::from_bytes"])
+
+# ---- C19: reader independence -------------------------------------------------------------------
+R = "crate::verif_obl_reader::"
+RD_FN = ["Frame::from_reader", "ReaderCrc::read", "ReaderCrc::seek", "Frame::read_crc"]
+for _nm, _b0, _b4 in (("df11", 0x5d, -1), ("df19", 0x98, -1), ("df24", 0xc5, -1), ("df17tc24", 0x8d, 0xc0), ("df00", 0x02, -1), ("df16", 0x80, -1), ("df20mb30", 0xa0, 0x30)):
+    add("rd_single_%s" % _nm, "adsb_deku", R + "obl_reader_frag", args="0x%02x, %d, 0, 0" % (_b0, _b4), props=["C19", "C01"], unwind=40, kani_flags=FAST,
+        tier="quick" if _nm in ("df11", "df19", "df24", "df17tc24") else "thorough", timeout=900,
+        bounded="schedule: every read delivers one byte; formats listed; frame bytes symbolic",
+        domain="complete frames, byte 0 = 0x%02x%s, all other bits symbolic; all-single-byte schedule" % (_b0, (", byte 4 = 0x%02x" % _b4) if _b4 >= 0 else ""), functions=RD_FN)
+    for _k in (0, 1, 2, 3):
+        add("rd_short%d_%s" % (_k, _nm), "adsb_deku", R + "obl_reader_frag", args="0x%02x, %d, 1, %d" % (_b0, _b4, _k), props=["C19", "C01"], unwind=40, kani_flags=FAST,
+            tier="quick" if (_nm in ("df24", "df11") and _k in (0, 1)) else "thorough", timeout=900,
+            bounded="schedule: read call #%d is short (1 byte)" % _k,
+            domain="complete frames, byte 0 = 0x%02x, all other bits symbolic; read call %d short" % (_b0, _k), functions=RD_FN)
+add("reader_any_native", "adsb_deku", R + "obl_reader_any", props=["native-oracle"], stubs=[], tier="native",
+    domain="native oracle: any buffer, any schedule", functions=RD_FN)
 
 
 def select(prop, tier):
